@@ -1391,6 +1391,58 @@ fn grid() {
             }
             println!("Q vec_dedup_key_raw_parts_sweep | {} | same", if bad == 0 { "same".to_string() } else { format!("{}_cases_differ", bad) });
         }
+        // C15 / C16: growing operations when the arena refuses the memory (chunk full, limit reached): the
+        // out-of-memory report is an unwinding panic, so the vector is observable afterwards — every
+        // element is still owned exactly once (dropped once in the end, none twice, none lost except by
+        // a documented leak), whatever operation was under way
+        {
+            use std::cell::RefCell;
+            use std::rc::Rc;
+            struct D(u32, Rc<RefCell<Vec<u32>>>);
+            impl Drop for D { fn drop(&mut self) { self.1.borrow_mut().push(self.0); } }
+            impl Clone for D { fn clone(&self) -> D { D(self.0 + 1000, self.1.clone()) } }
+            let mut bad = 0usize;
+            for slack in 0..3usize {
+                for how in 0..9usize {
+                    let b2 = Bump::new();
+                    let led = Rc::new(RefCell::new(Vec::new()));
+                    let mut made: Vec<u32> = Vec::new();
+                    let mut v: BVec<D> = BVec::with_capacity_in(4 + slack, &b2);
+                    for i in 0..4u32 { v.push(D(i, led.clone())); made.push(i); }
+                    let room = b2.chunk_capacity();
+                    let _fill = b2.alloc_slice_fill_copy(room, 0u8);
+                    b2.set_allocation_limit(Some(b2.allocated_bytes()));
+                    let l2 = led.clone();
+                    let mut fresh = |n: u32, made: &mut Vec<u32>| -> Vec<D> { (0..n).map(|i| { made.push(100 + i); D(100 + i, l2.clone()) }).collect() };
+                    let items = fresh(6, &mut made);
+                    let r = catch_unwind(AssertUnwindSafe(|| match how {
+                        0 => { for x in items { v.push(x); } }
+                        1 => { v.extend(items); }
+                        2 => { let mut it = items.into_iter(); let first = it.next().unwrap(); v.insert(1, first); for x in it { v.insert(0, x); } }
+                        3 => { v.splice(1..2, items); }
+                        4 => { v.splice(1..1, items); }
+                        5 => { let x = items.into_iter().next().unwrap(); v.resize(12, x); }
+                        6 => { let mut o: BVec<D> = BVec::new_in(&b2); for x in items { o.push(x); } v.append(&mut o); }
+                        7 => { let c = v.clone(); drop(items); drop(c); }
+                        _ => { let src: Vec<D> = items; v.extend_from_slice(&src); }
+                    }));
+                    b2.set_allocation_limit(None);
+                    let _ = r;
+                    let held: Vec<u32> = v.iter().map(|d| d.0).collect();
+                    drop(v);
+                    let mut all = led.borrow().clone();
+                    all.sort();
+                    let dup = all.windows(2).any(|w| w[0] == w[1]);
+                    // every element that was held at the end has now been dropped
+                    let held_dropped = held.iter().all(|h| all.binary_search(h).is_ok());
+                    if dup || !held_dropped {
+                        bad += 1;
+                        if bad <= 2 { println!("Q drops_once refused_growth how={} slack={} | held={:?} dropped={:?} | no_duplicates", how, slack, held, all); }
+                    }
+                }
+            }
+            println!("Q drops_once refused_growth_sweep | {} | same", if bad == 0 { "same".to_string() } else { format!("{}_cases_differ", bad) });
+        }
         // C13: io::Write for Vec<u8>, called directly: every write takes the whole buffer and says so,
         // whatever the spare capacity (std's Vec<u8> does; a short write would be legal for io::Write
         // but is not what std's Vec does), and write_all / write! / flush agree with std
